@@ -59,7 +59,8 @@ ASSUMPTIONS = ["vf.ref.llcp_ref decodes I/RR/RNR/CONNECT/CC as LLCP 1.3 section 
                "lost wake-ups are recognised through CPython's threading.Condition waiter registration"]
 REQUIRED = ["pdu_I", "pdu_RR", "pdu_RNR", "ns_wraps", "window_full_events", "rnr_episodes", "histories_enumerated",
             "walks", "recv_compared", "quiescence_equal_checked", "emsgsize_checked", "threaded_runs_completed",
-            "threaded_messages_delivered", "thread_switches", "pdu_len_contract"]
+            "threaded_messages_delivered", "thread_switches", "pdu_len_contract", "acks_polls_true",
+            "acks_polls_true_after_wrap"]
 
 EX_CONFIGS = [  # bounded-exhaustive configurations: RW(A), RW(B), aggregation, early (accepting end acts before the CC left)
     {"rw": [1, 1], "agf": 0, "early": 0}, {"rw": [1, 1], "agf": 1, "early": 0},
@@ -192,6 +193,7 @@ class Exec:
         self.ann_busy = {"A": False, "B": False}
         self.last_leaves = []
         self.i_seen = 0
+        self.acks_polled = {"A": 0, "B": 0}      # poll("acks") calls that returned True, per end
         self.compared = 0
         self.prev_symm = False
         self.held = None
@@ -501,11 +503,36 @@ class Exec:
 
     def op_p(self, end, ev):
         try:
-            self.sock[end].poll(ev, 0)
+            r = self.sock[end].poll(ev, 0)
             self.st.inc("polls")
         except Exception as e:
             return self._api_error("poll", e)
+        if ev == "acks":
+            self.check_acks_poll(end, r)
         return False
+
+    def check_acks_poll(self, end, r):
+        """poll("acks") is documented to return True iff the counter of received acknowledgements is > 0 and
+        then to decrement it: between link turns that counter is exactly (I PDUs of this end acknowledged by N(R)
+        values on the wire, per the reference window model) - (polls that returned True)"""
+        m, st = self.model, self.st
+        if not m.established or m.closed or self.any_close:
+            return
+        avail = m.acked[end] - self.acks_polled[end]
+        st.inc("acks_polls_judged")
+        if r is True:
+            self.acks_polled[end] += 1
+            st.inc("acks_polls_true")
+            if m.acked[end] > 16:
+                st.inc("acks_polls_true_after_wrap")
+        if avail > 0 and r is not True:
+            raise Violation("acks/poll-false-with-acknowledgements-pending" + ("/after-wrap" if m.sent[end] >= 16 else ""),
+                            "poll('acks') -> %r at %s with %d acknowledged on the wire and %d consumed" % (
+                                r, end, m.acked[end], self.acks_polled[end]))
+        if avail <= 0 and r is True:
+            raise Violation("acks/poll-true-without-acknowledgement",
+                            "poll('acks') -> True at %s with %d acknowledged on the wire and %d consumed before" % (
+                                end, m.acked[end], self.acks_polled[end] - 1))
 
     def op_c(self, end):
         """close(): its wait for the DM turns the link (bounded); returns when close() returns"""
@@ -794,7 +821,7 @@ def gen_walk(rng, cfg, steps):
             busy[e] ^= 1
             ops.append(["b", e, busy[e]])
         else:
-            ops.append(["p", e, rng.choice(["recv", "send", "acks"])])
+            ops.append(["p", e, rng.choice(["recv", "send", "acks", "acks"])])
     return ops
 
 
